@@ -39,6 +39,15 @@ def c_filter(chk, g, drv, jobs):
     from ixpeobssim.evt.gti import xGTIList
     s0, stop, gtis = gen_gtis(g)
     ts = gen_times(g, s0, stop, gtis, int(g.integers(0, 60)))
+    r = g.uniform()
+    if r < 0.2 and len(gtis) >= 2:
+        # the list need not be in chronological order (a list assembled from several sources): filtering is membership in *some* interval
+        gtis = [gtis[i] for i in g.permutation(len(gtis))]
+    elif r < 0.35 and len(gtis) >= 1:
+        # nor need its intervals be disjoint: one nested in another, or two overlapping
+        a, b = gtis[int(g.integers(0, len(gtis)))]
+        if b - a >= 4:
+            gtis = gtis + [(a + (b - a) // 4, b - (b - a) // 4)] if g.uniform() < 0.5 else gtis + [(a + (b - a) // 2, min(stop, b + (b - a) // 2))]
     gl = xGTIList(s0 * TICK, stop * TICK, *[(a * TICK, b * TICK) for a, b in gtis])
     arr = numpy.array(ts, dtype=float) * TICK
     kept, mask = gl.filter_event_times(arr)
